@@ -239,14 +239,27 @@ func redactFieldNamesFromPlanSummary(planSummary string) string {
 	if planSummary == "COLLSCAN" {
 		return planSummary
 	}
-	result := planSummary
-	fieldNames := ParsePlanSummary(planSummary)
-	for _, fieldName := range fieldNames {
-		hashed := HashName(fieldName)
-		result = strings.ReplaceAll(result, fieldName, hashed)
-	}
-	return result
+	// Rewrite the index keys where they stand, one IXSCAN { ... } group and one key at a time. (Replacing every parsed
+	// name throughout the whole summary corrupts it when a name is part of another name, of "IXSCAN" or of a pseudonym.)
+	return planSummaryIndexKeys.ReplaceAllStringFunc(planSummary, func(stage string) string {
+		open, end := strings.Index(stage, "{"), strings.LastIndex(stage, "}")
+		if open < 0 || end <= open {
+			return stage
+		}
+		keys := strings.Split(stage[open+1:end], ",")
+		for i, keyAndDirection := range keys {
+			parts := strings.SplitN(keyAndDirection, ":", 2)
+			if key := strings.TrimSpace(parts[0]); key != "" {
+				parts[0] = strings.Replace(parts[0], key, HashName(key), 1)
+				keys[i] = strings.Join(parts, ":")
+			}
+		}
+		return stage[:open+1] + strings.Join(keys, ",") + stage[end:]
+	})
 }
+
+// planSummaryIndexKeys matches one index-scan stage of a plan summary together with its key pattern.
+var planSummaryIndexKeys = regexp.MustCompile(`IXSCAN\s*\{([^}]+)\}`)
 
 func traverseMapPath(path []string, operatorMap *orderedmap.OrderedMap[string, any], isSearchStage bool) (interface{}, bool) {
 	var current any = operatorMap
